@@ -47,6 +47,9 @@ Init == st \in InitStates /\ sy = FALSE /\ calm = FALSE
 
 SyncAct == st' = RefSync(st) /\ sy' = TRUE
 
+\* 2 / 3 back-to-back syncs before the ReplicaSet controller reacts (stale statuses), then its reaction
+SyncStaleAct == \E k \in {2, 3} : StaleOk(st, k, FALSE) /\ st' = SyncStaleWith(st, k, FALSE) /\ sy' = TRUE
+
 AvailUp ==
   /\ sy' = FALSE
   /\ \/ st.nx /\ st.n.a < st.n.s /\ st' = [st EXCEPT !.n.a = @ + 1]
@@ -74,7 +77,7 @@ RaiseAct ==
 
 Env == AvailUp \/ AvailDown \/ ScaleAct \/ RaiseAct
 
-Next == (SyncAct \/ Env) /\ UNCHANGED calm
+Next == (SyncAct \/ SyncStaleAct \/ Env) /\ UNCHANGED calm
 Spec == Init /\ [][Next]_vars
 
 (***************************************************************************)
@@ -102,7 +105,7 @@ I_D5 == Covers(st) => LET r == FairRun(st, FairBudget(st), FALSE) IN r.fix /\ Co
 (***************************************************************************)
 CalmDown == ~calm /\ calm' = TRUE /\ UNCHANGED <<st, sy>>
 NextLive ==
-  \/ ~calm /\ (SyncAct \/ Env) /\ UNCHANGED calm
+  \/ ~calm /\ (SyncAct \/ SyncStaleAct \/ Env) /\ UNCHANGED calm
   \/ CalmDown
   \/ calm /\ (SyncAct \/ AvailUp) /\ UNCHANGED calm
 SpecLive == Init /\ [][NextLive]_vars /\ WF_vars(calm /\ SyncAct /\ UNCHANGED calm) /\ WF_vars(calm /\ AvailUp /\ UNCHANGED calm)
